@@ -41,7 +41,7 @@ if __name__ == "__main__":
         if a == "--jobs": jobs = int(sys.argv[i + 1]); args.remove(sys.argv[i + 1])
     pid = args[0]; seeds = args[1:]
     if seeds == ["all"] or not seeds:
-        seeds = sorted(os.path.basename(p) for p in glob.glob("/verif/seeded/*"))
+        seeds = sorted(os.path.basename(p) for p in glob.glob("/verif/seeded/C*"))
     work = []
     for s in seeds:
         if pid == "own":
